@@ -266,3 +266,55 @@ func C01Reject() {
 		sym.Reach("payload-requested")
 	}
 }
+
+// zzFailWriter fails after accepting a given number of bytes.
+type zzFailWriter struct{ room int }
+
+func (w *zzFailWriter) Write(p []byte) (int, error) {
+	if len(p) <= w.room {
+		w.room -= len(p)
+		return len(p), nil
+	}
+	n := w.room
+	w.room = 0
+	return n, io.ErrClosedPipe
+}
+
+// C01Large: a large message (70000-byte payload, symbolic at both ends) followed back-to-back by a
+// small one: both read back identical and the reader consumes exactly header+payload each time; and a
+// large message written after another large write FAILED is still exactly header+payload on the wire.
+func C01Large() {
+	sym.SetMaxMaterialise(1 << 18)
+	const n = 70000
+	big := make([]byte, n)
+	big[0], big[n-1] = sym.U8("first"), sym.U8("last")
+	h1, h2 := c01SymHeader(), c01SymHeader()
+	m1 := NewMessage(h1, big)
+	m2 := NewMessage(h2, sym.Bytes("small", 2))
+	// a failed large write first (the fault position is free), then the real ones
+	fw := &zzFailWriter{room: []int{0, 10, 28, 40000}[sym.Choose("write-fault", 4)]}
+	sym.Assert(m1.Write(fw) != nil, "failing-writer-reported-success")
+	var buf bytes.Buffer
+	sym.Assert(m1.Write(&buf) == nil, "large/write-ok")
+	sym.Assert(buf.Len() == 28+n, "large/wire-length")
+	sym.Assert(m2.Write(&buf) == nil, "small/write-ok")
+	wire := buf.Bytes()
+	sym.Assert(len(wire) == 28+n+30, "sequence/wire-length")
+	if len(wire) != 28+n+30 {
+		return
+	}
+	sym.Assert(sym.And(wire[28] == big[0], wire[28+n-1] == big[n-1]), "large/payload-on-wire")
+	sym.Assert(sym.EqBytes(wire[28+n:], c01Layout(h2, m2.Payload)), "small/wire-layout")
+	r := bytes.NewReader(wire)
+	var b1, b2 Message
+	sym.Assert(b1.Read(r) == nil, "large/read-ok")
+	sym.Assert(r.Len() == 30, "large/consumed-exactly")
+	sym.Assert(b1.Header == m1.Header, "large/header")
+	sym.Assert(len(b1.Payload) == n, "large/payload-length")
+	if len(b1.Payload) == n {
+		sym.Assert(sym.And(b1.Payload[0] == big[0], b1.Payload[n-1] == big[n-1]), "large/payload")
+	}
+	sym.Assert(b2.Read(r) == nil, "small/read-ok")
+	sym.Assert(sym.And(b2.Header == m2.Header, sym.EqBytes(b2.Payload, m2.Payload)), "small/roundtrip")
+	sym.Reach("large-done")
+}
